@@ -105,7 +105,8 @@ spec fn name_done(bv: Seq<String>, n: int, name: Seq<char>) -> bool {
     exists|j: int| 0 <= j < n && (#[trigger] bv[j])@ == name
 }
 
-/// the signal list File::parse builds from the XML: the input pins first, then the output pins (`inputs_signals.chain(output_signals)`)
+// [A-prefix] precondition of the fragment parse_tail, not checked by any contract: the signal list the dropped front part of File::parse builds
+/// from the XML: the input pins first, then the output pins (`inputs_signals.chain(output_signals)`)
 spec fn inputs_first(signals: Seq<Signal>) -> bool {
     &&& forall|i: int| 0 <= i < signals.len() ==> (#[trigger] signals[i]).typ is Input || signals[i].typ is Output
     &&& forall|i: int, j: int| 0 <= i < j < signals.len() && (#[trigger] signals[j]).typ is Input ==> (#[trigger] signals[i]).typ is Input
